@@ -1,4 +1,4 @@
-#!/usr/bin/env python3
+#!/venv/bin/python
 """Regenerate DETECTION.md (seeded changes) and the generated block of DESIGN.md section 5 (defect dispositions)
 from known_findings.json and seeded/*/{meta,verified,result}.json."""
 import json, os, re, glob
@@ -19,6 +19,27 @@ a, b = "<!-- BEGIN GENERATED DISPOSITIONS -->", "<!-- END GENERATED DISPOSITIONS
 if a in s:
     s = s[: s.index(a) + len(a)] + "\n" + block + "\n" + s[s.index(b):]
     open(p, "w").write(s)
+# as-built table per property (from the modules and the committed quick-tier evidence)
+import importlib, sys
+sys.path.insert(0, ROOT)
+rows2 = ["| property | engine | level | quick tier coverage (committed evidence) | technique |", "|---|---|---|---|---|"]
+for mp in sorted(glob.glob(os.path.join(ROOT, "props", "c*.py"))):
+    try:
+        m = importlib.import_module("props." + os.path.basename(mp)[:-3])
+    except Exception as e:
+        continue
+    ev = {}
+    ep = os.path.join(ROOT, "evidence", f"{m.ID}.json")
+    if os.path.exists(ep):
+        ev = json.load(open(ep)).get("coverage", {})
+    keys = ("states", "transitions", "schedules", "evaluations", "cases", "distinct_nontrivial", "file_cases", "fault_sites")
+    cov = ", ".join(f"{k}={ev[k]}" for k in keys if k in ev)
+    rows2.append(f"| {m.ID} | {m.ENGINE} | {m.LEVEL} | {cov} | {m.TECHNIQUE[:300]} |")
+a2, b2 = "<!-- BEGIN GENERATED ASBUILT -->", "<!-- END GENERATED ASBUILT -->"
+s_ = open(p).read()
+if a2 in s_:
+    s_ = s_[: s_.index(a2) + len(a2)] + "\n" + "\n".join(rows2) + "\n" + s_[s_.index(b2):]
+    open(p, "w").write(s_)
 # DETECTION.md
 out = ["# Seeded breaking changes and what the checks do with them", "",
        "Each change was written by an independent sub-agent that saw only the text of one property and its own scratch",
